@@ -246,7 +246,7 @@ def run_mono(case, r):
                     last_elapsed = e
                 else:
                     x = m.expired
-                    if last_expired is True and x is False:
+                    if last_expired and not x:
                         r.fail("C08/mono-expired-reverted", "step %d expired went True -> False" % i)
                         return
                     if not any_back and mstart is not None and exact and x != (clock.t - mstart >= dur):
